@@ -25,6 +25,7 @@ import (
 	"gverif/engine/overlap"
 	"gverif/engine/paramuse"
 	"gverif/engine/pool"
+	"gverif/engine/sibx"
 	"gverif/engine/stride"
 	"gverif/engine/twin"
 )
@@ -109,7 +110,7 @@ var blasArgs = args.Options{RecvType: "Implementation"}
 
 func init() {
 	properties["C01"] = &property{
-		explanation: "Decides structural necessary conditions of C01 for all BLAS code paths: TWIN.generated — every generated float32/complex64 routine (and sgemm, the dot variants, the blas32/cblas64/cblas128 conversions), none of which has tests of its own at Level 2/3, is node for node the image of its tested float64/complex128 source under the generator's renaming; MODSET.blas — for all 142 routines the set of slice operands that may be written (SSA store/copy/call summaries with a level-sensitive points-to abstraction, bottom-up over the VTA call graph, analysed under the noasm tag so that every kernel has a Go body) equals the output operands of the BLAS standard for the routine's stem ('every read-only operand is unchanged', up to caller-supplied aliasing); STRIDE — no operand of blas/gonum, the blas64/blas32/cblas* wrappers or the internal/asm Go kernels is indexed, sliced or forwarded with another operand's ld/inc/Stride (units inferred by flow-insensitive fixpoint over integer locals). ASM.window/.units on the 56 assembly kernels. Does not decide arithmetic correctness of the loop nests, rounding, or the arithmetic of the assembly.",
+		explanation: "Decides structural necessary conditions of C01 for all BLAS code paths: TWIN.generated — every generated float32/complex64 routine (and sgemm, the dot variants, the blas32/cblas64/cblas128 conversions), none of which has tests of its own at Level 2/3, is node for node the image of its tested float64/complex128 source under the generator's renaming; MODSET.blas — for all 142 routines the set of slice operands that may be written (SSA store/copy/call summaries with a level-sensitive points-to abstraction, bottom-up over the VTA call graph, analysed under the noasm tag so that every kernel has a Go body) equals the output operands of the BLAS standard for the routine's stem ('every read-only operand is unchanged', up to caller-supplied aliasing); STRIDE — no operand of blas/gonum, the blas64/blas32/cblas* wrappers or the internal/asm Go kernels is indexed, sliced or forwarded with another operand's ld/inc/Stride (units inferred by flow-insensitive fixpoint over integer locals). STRIDE.extent — the element count of a strided vector in its length check, its negative-increment start offset and (in the kernels) its loop bound is one quantity; the start-index arguments (ix, iy) of the strided kernels obey the index rules; FLAG.trans — no real-valued routine or blas64/blas32 wrapper that accepts blas.ConjTrans distinguishes it from blas.Trans in any condition or switch. ASM.window/.tail/.units on the 56 assembly kernels. Does not decide arithmetic correctness of the loop nests, rounding, or the arithmetic of the assembly.",
 		assumptions: commonAssumptions,
 		run: func(tier string, res *core.Result) {
 			r := stride.Run(def, core.Pkgs(blasPkgs...))
@@ -168,7 +169,7 @@ func init() {
 
 func lapackProp(self, other, what string) *property {
 	return &property{
-		explanation: "Decides structural necessary conditions of " + self + " on the lapack/gonum routines anchored by it (and shared auxiliaries), for every path and both workspace modes: ARGS.query — with lwork == -1 the only stores are to work[0] and the only calls are queries/scalar helpers ('a workspace query touches nothing else'); OKFLOW.use/.report — the ok/unconverged status of every callee (a singular pivot from Dgetrf/Dpotrf/Dtrtrs/...) reaches a branch, field or return, and no driver returns success on the path where a callee failed; ARGS.order/.lencheck/.complete — arguments are validated before any operand write, every slice use is preceded by a branch on its length, every int/flag/slice parameter is validated; STRIDE — no operand is addressed with another operand's leading dimension, so results cannot depend on which matrix's ld was used. " + what,
+		explanation: "Decides structural necessary conditions of " + self + " on the lapack/gonum routines anchored by it (and shared auxiliaries), for every path and both workspace modes: ARGS.query — with lwork == -1 the only stores are to work[0] and the only calls are queries/scalar helpers ('a workspace query touches nothing else'); OKFLOW.use/.report — the ok/unconverged status of every callee (a singular pivot from Dgetrf/Dpotrf/Dtrtrs/...) reaches a branch, field or return, and no driver returns success on the path where a callee failed; ARGS.order/.lencheck/.complete — arguments are validated before any operand write, every slice use is preceded by a branch on its length, every int/flag/slice parameter is validated; STRIDE — no operand is addressed with another operand's leading dimension, so results cannot depend on which matrix's ld was used; a strided vector handed on to BLAS keeps its own increment (STRIDE.vecinc); a workspace block is used with one leading dimension throughout a routine and the region laid out after it starts that many rows further (STRIDE.workld/.worknext); FLAG.trans on the routines that accept ConjTrans. " + what,
 		assumptions: commonAssumptions,
 		run: func(tier string, res *core.Result) {
 			sc := lapackScope(res, self, other)
@@ -198,7 +199,7 @@ func init() {
 	properties["C02"] = lapackProp("C02", "C03", "Does not decide backward stability, factor structure, blocked/unblocked agreement or sufficiency of the reported workspace size.")
 	properties["C03"] = lapackProp("C03", "C02", "Does not decide orthogonality, residual identities, ordering of values or convergence.")
 	properties["C07"] = &property{
-		explanation: "Decides, for all 281 exported BLAS and LAPACK entry points and every path through their prologues: ARGS.order (no argument-check panic is reachable after an operand may have been written), ARGS.lencheck (every use of a slice parameter is preceded on every path by a branch on its length — the only thing between a short slice and an out-of-bounds kernel access), ARGS.complete (every int/flag/slice parameter occurs in an argument check; exceptions are a frozen table with reasons), ARGS.optional (an operand validated only under a flag is used only under it), ARGS.query; MAT.order — in the 179 exported pointer-receiver methods of mat that validate shapes, none of the 297 shape/argument panics is reachable after the receiver was sized (reuseAs*) or written (zeroing stores are invalidation; element/status checks are data checks); TWIN.generated (the prologues of the untested float32/complex64 routines are the images of the tested ones) and TWIN.bounds (the bounds-checked and unchecked mat element accessors panic under the same conditions); STRIDE over BLAS, LAPACK and mat including STRIDE.len (a length check of operand p is written in p's own increment); ASM.window — in each of the 149 loops of the 56 assembly kernels every memory access through an induction register stays inside the bytes that iteration advances over (an over-wide load in a scalar tail is an out-of-bounds read on the last element); ASM.units — a byte quantity is never scaled by SIZE again. Does NOT decide that the loop guards of the assembly leave enough elements, nor that each Go-level check uses the right extent polynomial.",
+		explanation: "Decides, for all 281 exported BLAS and LAPACK entry points and every path through their prologues: ARGS.order (no argument-check panic is reachable after an operand may have been written), ARGS.lencheck (every use of a slice parameter is preceded on every path by a branch on its length — the only thing between a short slice and an out-of-bounds kernel access), ARGS.complete (every int/flag/slice parameter occurs in an argument check; exceptions are a frozen table with reasons), ARGS.optional (an operand validated only under a flag is used only under it), ARGS.query; MAT.order — in the 179 exported pointer-receiver methods of mat that validate shapes, none of the 297 shape/argument panics is reachable after the receiver was sized (reuseAs*) or written (zeroing stores are invalidation; element/status checks are data checks); TWIN.generated (the prologues of the untested float32/complex64 routines are the images of the tested ones) and TWIN.bounds (the bounds-checked and unchecked mat element accessors panic under the same conditions); STRIDE over BLAS, LAPACK and mat including STRIDE.len (a length check of operand p is written in p's own increment); ASM.window — in each of the 149 loops of the 56 assembly kernels every memory access through an induction register stays inside the bytes that iteration advances over (an over-wide load in a scalar tail is an out-of-bounds read on the last element); ASM.tail — outside the loops a block touches only the bytes it advances over, or one element in the final tail; ASM.units — a byte quantity is never scaled by SIZE again. Does NOT decide that the loop guards of the assembly leave enough elements, nor that each Go-level check uses the right extent polynomial.",
 		assumptions: commonAssumptions,
 		run: func(tier string, res *core.Result) {
 			a := args.Run(def, core.Pkgs("./blas/gonum"), blasArgs)
@@ -239,7 +240,7 @@ func init() {
 		},
 	}
 	properties["C04"] = &property{
-		explanation: "Decides structural necessary conditions of C04 for every function of mat: TWIN.sync — the receiver-sizing pairs reuseAsNonZeroed/reuseAsZeroed ('must be kept in sync') of six types differ only by use/useZeroed and the final Zero(); TWIN.bounds — the bounds and default element accessors check the same guards and address the same Data element on every access path; CONFIG — mat type-checks with one API under bounds/safe; STRIDE — every Data[...] index/slice and every (Data, Stride) pair handed to blas64/lapack64 uses the stride of the same matrix (views with Stride > Cols are addressed with their own stride everywhere). Does not decide agreement of specialised dispatch arms with the generic At loop.",
+		explanation: "Decides structural necessary conditions of C04 for every function of mat: TWIN.sync — the receiver-sizing pairs reuseAsNonZeroed/reuseAsZeroed ('must be kept in sync') of six types differ only by use/useZeroed and the final Zero(); TWIN.bounds — the bounds and default element accessors check the same guards and address the same Data element on every access path; CONFIG — mat type-checks with one API under bounds/safe; STRIDE — every Data[...] index/slice and every (Data, Stride) pair handed to blas64/lapack64 uses the stride of the same matrix (views with Stride > Cols are addressed with their own stride everywhere). NILRECV — no call in mat passes a constant nil pointer to a function that dereferences it on every path (found and repaired: Cholesky.SymRankOne panicked for every Vector that is not a RawVectorer — a result depending on the operand's concrete type). Does not decide agreement of specialised dispatch arms with the generic At loop.",
 		assumptions: commonAssumptions,
 		run: func(tier string, res *core.Result) {
 			r := stride.Run(def, core.Pkgs("./mat"))
@@ -270,7 +271,7 @@ func init() {
 
 func init() {
 	properties["C08"] = &property{
-		explanation: "Decides the build-configuration clauses of C08 statically: CONFIG.build/.api — every package with tag- or arch-selected files (discovered by scanning //go:build lines; thorough: every package) loads and type-checks under {default, noasm, safe, bounds, tomita, debug} x {amd64, arm64, 386} and exports the same API in each, so the assembly, pure-Go and safe builds are interchangeable at the type level (the test suite compiles one configuration); TWIN.r3 — the safe and unsafe 3x3 builders of spatial/r3 (Eye, Skew, Mul, Rotation.Mat) store the identical expression to every element; STRIDE on the pure-Go kernels of internal/asm under default and noasm; PARAMUSE — every parameter of the kernels and of floats/cmplxs is read (a length or increment that is accepted but never consulted is the footprint of a loop bounded by len(x) instead of n). ASM.window/.units on the assembly text (per-iteration access windows; byte/element units of start offsets — found and repaired the amd64 Ger kernels' negative-increment handling, which made the default build disagree with noasm). Does NOT decide that assembly or a noasm loop equals the scalar definition, nor search/ordering helpers, norms or NaN handling (value-level).",
+		explanation: "Decides the build-configuration clauses of C08 statically: CONFIG.build/.api — every package with tag- or arch-selected files (discovered by scanning //go:build lines; thorough: every package) loads and type-checks under {default, noasm, safe, bounds, tomita, debug} x {amd64, arm64, 386} and exports the same API in each, so the assembly, pure-Go and safe builds are interchangeable at the type level (the test suite compiles one configuration); TWIN.r3 — the safe and unsafe 3x3 builders of spatial/r3 (Eye, Skew, Mul, Rotation.Mat) store the identical expression to every element; STRIDE on the pure-Go kernels of internal/asm under default and noasm; PARAMUSE — every parameter of the kernels and of floats/cmplxs is read (a length or increment that is accepted but never consulted is the footprint of a loop bounded by len(x) instead of n). ASM.window/.units on the assembly text (per-iteration access windows; byte/element units of start offsets — found and repaired the amd64 Ger kernels' negative-increment handling, which made the default build disagree with noasm). SIB.guards — each float32/complex64 kernel with a Go body exits early (NaN, Inf, zero, empty) under the same conditions as its float64/complex128 sibling; STRIDE.extent on the kernels (start offset vs loop bound); ASM.tail. Does NOT decide that assembly or a noasm loop equals the scalar definition, nor search/ordering helpers, norms or NaN handling (value-level).",
 		assumptions: commonAssumptions,
 		run: func(tier string, res *core.Result) {
 			pk, counts, err := config.TaggedPackages()
@@ -298,6 +299,10 @@ func init() {
 			am.Floor("byte_scalings", 40)
 			res.Merge(am)
 
+			sg := sibx.Run()
+			sg.Floor("sibling_function_pairs", 35)
+			sg.Floor("exit_guards", 15)
+			res.Merge(sg)
 			asm := []string{"./internal/asm/f64", "./internal/asm/f32", "./internal/asm/c128", "./internal/asm/c64"}
 			for _, cfg := range []core.Config{{}, {Tags: "noasm"}} {
 				r := stride.Run(cfg, core.Pkgs(asm...))
@@ -312,7 +317,7 @@ func init() {
 
 func init() {
 	properties["C06"] = &property{
-		explanation: "Decides the 'reported through the ok/error result rather than a silently wrong answer' clause of C06 for every call site and return of mat and lapack64: OKFLOW.use — the ok/error/unconverged result of every non-query call to a LAPACK routine or to a mat factorization/solver reaches a branch, a field, a return or another call (def-use reachability on the CFG; explicit advisory discards are a frozen table); OKFLOW.report — no function returns a constant success on the path where a callee's status was false; OKFLOW.cond — all error-returning Solve*/Inverse* methods can return Condition, every finite Condition(x) is returned exactly under x > ConditionTolerance (the one tolerance object), Condition(+Inf) only under a failed status, and receivers that store a cond estimate report it. STRIDE on the factorization files (a strided right-hand side or update vector is addressed with its own increment; its Data is treated as contiguous only under a test of Inc). Does NOT decide reconstruction identities, update formulas or cross-factorization consistency.",
+		explanation: "Decides the 'reported through the ok/error result rather than a silently wrong answer' clause of C06 for every call site and return of mat and lapack64: OKFLOW.use — the ok/error/unconverged result of every non-query call to a LAPACK routine or to a mat factorization/solver reaches a branch, a field, a return or another call (def-use reachability on the CFG; explicit advisory discards are a frozen table); OKFLOW.report — no function returns a constant success on the path where a callee's status was false; OKFLOW.cond — all error-returning Solve*/Inverse* methods can return Condition, every finite Condition(x) is returned exactly under x > ConditionTolerance (the one tolerance object), Condition(+Inf) only under a failed status, and receivers that store a cond estimate report it. STRIDE on the factorization files (a strided right-hand side or update vector is addressed with its own increment; its Data is treated as contiguous only under a test of Inc). FACT.normorder — the norm handed to a LAPACK condition estimator is computed before the in-place factorization of the same storage (found and repaired: BandCholesky.Cond used the norm of the factor); FACT.state — Clone/Scale/SymRankOne/ExtendVecSym/RankOne, which rebuild the receiver from another value of the same type, assign every field (found and repaired: LU.RankOne into a fresh receiver left ok == false, so Det was 0 and SolveTo failed); NILRECV on the factorization files. Does NOT decide reconstruction identities, update formulas or the numerical consistency of Det/LogDet/Cond across factorizations.",
 		assumptions: commonAssumptions,
 		run: func(tier string, res *core.Result) {
 			r := okflow.Run(def, core.Pkgs("./mat", "./lapack/lapack64", "./lapack/gonum"))
@@ -403,7 +408,7 @@ func init() {
 		},
 	}
 	properties["C19"] = &property{
-		explanation: "Decides the termination-protocol clause of C19 ('Minimize terminates for every method ... and concurrency level') on the method side, for all 9 optimize Method.Run implementations through their helpers (localOptimizer.run/finish/finishMethodDone, summaries computed, not listed): GOPROTO.run — on every path to a normal exit the result channel is ranged to closure before close(operation) (the documented obligation 'closing of results happens before the closing of operations'), operation is closed on every path and never twice; GOPROTO.wg/.close/.capture on optimize.minimize's own goroutines. A new early return that skips the drain is the realistic way to hang Minimize and is invisible to tests that never take that path. Does NOT decide counters, status coherence, convergence, line-search conditions or the simplex solver.",
+		explanation: "Decides the termination-protocol clause of C19 ('Minimize terminates for every method ... and concurrency level') on the method side, for all 9 optimize Method.Run implementations through their helpers (localOptimizer.run/finish/finishMethodDone, summaries computed, not listed): GOPROTO.run — on every path to a normal exit the result channel is ranged to closure before close(operation) (the documented obligation 'closing of results happens before the closing of operations'), operation is closed on every path and never twice; GOPROTO.wg/.close/.capture on optimize.minimize's own goroutines. A new early return that skips the drain is the realistic way to hang Minimize and is invisible to tests that never take that path. INIT.state — in the 33 Init/InitDirection/initLocal methods of optimize, a receiver field assigned on some path is assigned on every returning path (lazy allocation under a test of the field itself excepted): no best value, counter or status of a previous Minimize run survives into the next ('the reported F is the objective value at the reported X'). Does NOT decide counters, status coherence, convergence, line-search conditions or the simplex solver.",
 		assumptions: commonAssumptions,
 		run: func(tier string, res *core.Result) {
 			r := goproto.RunProtocol(def)
@@ -422,7 +427,7 @@ func init() {
 
 func init() {
 	properties["C12"] = &property{
-		explanation: "Decides the representation mechanisms behind C12 for the 8 map-backed graph types of graph/simple and graph/multi, uid.Set and the 30 iterator types of graph/iterator, in both the default and the safe build: GRAPHINV.converse — every adjacency mutation is translated into an effect (ADD/DEL/DELROW/DELCOL/PRUNE on from/to or edges/lines, through local aliases and map-literal arms; an untranslatable mutation fails the check as an unrecognised idiom) and each method's effect set is closed under the converse, so forward and reverse adjacency stay mirror images; GRAPHINV.remove — RemoveNode deletes the key, the row and the column of every relation and releases the ID; GRAPHINV.ids — a new node key is followed on all paths by Use, Release is preceded by the key's deletion, line insertions are followed by Use on the line pool; GRAPHINV.uid — in uid.Set every update of used executes together with the dual update of free ('fresh IDs never collide with live ones'); GRAPHINV.iter — every path of Next() that can return true advances a cursor field read by Len(); CONFIG — graph/iterator, simple and multi type-check with one API under safe. Does NOT decide dense-matrix graphs, iterator Reset, panics leaving the graph unchanged, Undirect/Copy adapters.",
+		explanation: "Decides the representation mechanisms behind C12 for the 8 map-backed graph types of graph/simple and graph/multi, uid.Set and the 30 iterator types of graph/iterator, in both the default and the safe build: GRAPHINV.converse — every adjacency mutation is translated into an effect (ADD/DEL/DELROW/DELCOL/PRUNE on from/to or edges/lines, through local aliases and map-literal arms; an untranslatable mutation fails the check as an unrecognised idiom) and each method's effect set is closed under the converse, so forward and reverse adjacency stay mirror images; GRAPHINV.remove — RemoveNode deletes the key, the row and the column of every relation and releases the ID; GRAPHINV.ids — a new node key is followed on all paths by Use, Release is preceded by the key's deletion, line insertions are followed by Use on the line pool; GRAPHINV.uid — in uid.Set every update of used executes together with the dual update of free ('fresh IDs never collide with live ones'); GRAPHINV.iter — every path of Next() that can return true advances a cursor field read by Len(); TWIN.sibstate — each iterator method and the corresponding method of its Weighted sibling type (all build configurations' files) make the same assignments to the cursor/length/current fields; CONFIG — graph/iterator, simple and multi type-check with one API under safe. Does NOT decide dense-matrix graphs, iterator Reset, panics leaving the graph unchanged, Undirect/Copy adapters.",
 		assumptions: commonAssumptions,
 		run: func(tier string, res *core.Result) {
 			for _, c := range []core.Config{{}, {Tags: "safe"}} {
@@ -452,7 +457,7 @@ func init() {
 
 func init() {
 	properties["C16"] = &property{
-		explanation: "Decides the 'decoders are total ... never an internally inconsistent object' mechanisms of C16 for the binary decoders of mat, stat/card and mathext/prng and for graph6/digraph6: DECODE.mul — a product of two decoded integers is preceded on every path by a division-based overflow guard; DECODE.range — a decoded integer used as a shift count or allocation size is range-checked in an error-returning branch on every path before that use; DECODE.len — a variable-length field decoded into the receiver is length-checked before success is returned; DECODE.selfcmp — no compatibility comparison has two sides denoting the same expression ('merges only with compatible sketches'); DECODE.gate — every exported graph6/digraph6 accessor passes IsValid before touching raw bytes (helpers that index without a length test are found by a must-pass analysis, not listed); DECODE.clone — the clone methods of the RDF canonicalisation state give every slice/map field fresh storage (a shared `ordered` slice makes the canonical labelling depend on recursion order); TWIN.generated — hll64.go is the image of hll32.go. Found and repaired: rows*cols overflow in Dense.UnmarshalBinary[From], unvalidated p/register in HyperLogLog.UnmarshalBinary, the self-comparison in Union. Does NOT decide round-trip equality, the gocc/Ragel generated DOT and N-Quads parsers, or RDF canonicalisation.",
+		explanation: "Decides the 'decoders are total ... never an internally inconsistent object' mechanisms of C16 for the binary decoders of mat, stat/card and mathext/prng and for graph6/digraph6: DECODE.mul — a product of two decoded integers is preceded on every path by a division-based overflow guard; DECODE.range — a decoded integer used as a shift count or allocation size is range-checked in an error-returning branch on every path before that use; DECODE.len — a variable-length field decoded into the receiver is length-checked before success is returned; DECODE.selfcmp — no compatibility comparison has two sides denoting the same expression ('merges only with compatible sketches'); DECODE.gate — every exported graph6/digraph6 accessor passes IsValid before touching raw bytes (helpers that index without a length test are found by a must-pass analysis, not listed); DECODE.clone — the clone methods of the RDF canonicalisation state give every slice/map field fresh storage (a shared `ordered` slice makes the canonical labelling depend on recursion order); DECODE.fields — every receiver field a Marshal* method writes out is stored by the matching Unmarshal* method (23 codec method pairs of mat, stat/card, mathext/prng, cytoscapejs, sigmajs, gexf12), so no decoded object keeps part of the receiver's previous state; TWIN.generated — hll64.go is the image of hll32.go. Found and repaired: rows*cols overflow in Dense.UnmarshalBinary[From], unvalidated p/register in HyperLogLog.UnmarshalBinary, the self-comparison in Union. Does NOT decide round-trip equality, the gocc/Ragel generated DOT and N-Quads parsers, or RDF canonicalisation.",
 		assumptions: commonAssumptions,
 		run: func(tier string, res *core.Result) {
 			d := decode.Run(def, "./mat", "./stat/card", "./mathext/prng", "./graph/encoding/graph6", "./graph/encoding/digraph6")
@@ -572,6 +577,8 @@ func dump(argv []string) {
 	case "paramuse":
 		res = paramuse.Run(def, core.Pkgs(argv[1:]...))
 		res.Merge(paramuse.Run(core.Config{Tags: "noasm"}, core.Pkgs(argv[1:]...)))
+	case "sib":
+		res = sibx.Run()
 	case "init":
 		res = initx.Run(def, argv[1:]...)
 	case "fields":
